@@ -18,6 +18,7 @@ D. single flat sequences and 2-D equal-length input; E. KmerEncoding text <-> co
 Precondition kept: total number of letters >= window (the statement's quantifier), |A|**k representable in int64.
 """
 import itertools
+import json
 import math
 import random
 
@@ -26,6 +27,24 @@ from .common import Collector
 AMINO = "ACDEFGHIKLMNPQRSTVWY*"
 BAM16 = "=ACMGRSVTWYHKDBN"
 ALPHABETS = ["ACGT", "ACTG", "ACG", "AC", "ACGTN", BAM16, AMINO]
+
+
+def _size(case):
+    return (case.get("kind", "ragged") != "ragged", len(json.dumps(case, default=str)))
+
+
+class MinCollector(Collector):
+    """keeps, per signature, the smallest failing case seen (minimal reproducer) instead of the first"""
+
+    def fail(self, signature, case, message):
+        if signature in self._fail_sigs:
+            for f in self.failures:
+                if f["signature"] == signature:
+                    f["count"] = f.get("count", 1) + 1
+                    if _size(case) < _size(f["case"]):
+                        f["case"], f["message"] = case, str(message)[:600]
+            return
+        Collector.fail(self, signature, case, message)
 
 
 # ----------------------------------------------------------------------------------------------- oracle (plain Python)
@@ -127,8 +146,17 @@ def close(a, b):
     return a == b
 
 
+def w1sig(sig):
+    """at w = 1 the known symptom (every row empty) is one finding per function, whatever the input kind / encoding"""
+    ren = {"ascii-to-dna": "bitpacked", "generic-rolling": "generic"}
+    return ":".join(ren.get(p, p) for p in sig.split(":") if p not in ("flat1d", "array2d", "ragged", "ascii", "alphabet"))
+
+
 def compare(col, sig, case, got, exp, lengths, w):
     """row-wise comparison; the failure class (row count / row lengths / values) goes into the signature"""
+    if w == 1 and got != exp and len(got) == len(exp) and all(len(g) == 0 for g in got):
+        col.fail(w1sig(sig) + ":w=1:all-rows-empty", case, "w=1 got %r expected %r" % (got, exp))
+        return False
     if len(got) != len(exp):
         kind = "row-count"
     elif [len(g) for g in got] != [len(e) for e in exp]:
@@ -223,7 +251,7 @@ def check_minimizers(col, alph, rows, k, w, kind="ragged"):
     sig = "get_minimizers%s" % kind_tag(kind)
     col.case(case, contract="get_minimizers")
     seqs = build(alph, rows, kind)
-    res = col.guarded(lambda: get_minimizers(seqs, k, w), sig + (":k=1" if k == 1 else ""), case)
+    res = col.guarded(lambda: get_minimizers(seqs, k, w), "get_minimizers:k=1" if k == 1 else sig, case)
     if res is None:
         return
     got = col.guarded(lambda: rows_of(res, kind), sig + ":unreadable-result", case)
@@ -312,7 +340,11 @@ def check_counts(col, alph, rows, k, axis):
         got = col.guarded(lambda: [[int(x) for x in r] for r in res.counts.tolist()], sig + ":unreadable-result", case)
     if got is None:
         return
-    col.check(got == exp, sig + ":wrong-counts" + (":w=1" if k == 1 else ""), case, "got %r expected %r" % (got, exp))
+    if k == 1 and got != exp and not any(x for r in (got if axis is not None else [got]) for x in r):
+        col.fail("count_kmers:w=1:all-counts-zero", case, "got %r expected %r" % (got, exp))
+        return
+    if not col.check(got == exp, sig + ":wrong-counts" + (":w=1" if k == 1 else ""), case, "got %r expected %r" % (got, exp)):
+        return
     labels = list(res.alphabet)
     e = [o_text(c, alph, k) for c in range(A ** k)]
     col.check(labels == e, "count_kmers:labels-differ-from-kmer-text", case, "got %r expected %r" % (labels[:20], e[:20]))
@@ -399,7 +431,7 @@ def run(tier="quick", seed=0):
     quick = tier == "quick"
     Lmax = 4 if quick else 6
     wmax = 5 if quick else 7
-    col = Collector("C13", tier, seed,
+    col = MinCollector("C13", tier, seed,
                     "A: every list of 1..3 rows with lengths 0..%d x every w/k 1..%d (minimizers: every k <= w) x content variants "
                     "(2 deterministic + 1 seeded) x alphabets/paths; B: all contents of 1..2 short rows over 2- and 4-letter alphabets; "
                     "C: long layouts for every k 1..31; D: flat 1-D and 2-D inputs; E: k-mer text<->code for every k. "
